@@ -314,7 +314,23 @@ func (client *client) writeLoop() {
 	for {
 		select {
 		case <-client.close:
-			return
+			// setError queues the final DISCONNECT right before it closes client.close.
+			// Both cases may be ready at once, so look for it before giving up,
+			// otherwise the reason code is lost and nobody closes the connection.
+			for {
+				select {
+				case packet := <-client.out:
+					if _, ok := packet.(*packets.Disconnect); ok {
+						if err = client.writePacket(packet); err == nil {
+							srv.statsManager.packetSent(packet, client.opts.ClientID)
+						}
+						_ = client.rwc.Close()
+						return
+					}
+				default:
+					return
+				}
+			}
 		case packet := <-client.out:
 			switch p := packet.(type) {
 			case *packets.Publish:
